@@ -5,7 +5,9 @@
 (*   unbind [id, res]                Unbind(ctx) returned res                *)
 (*   write  [api, in, after, recv]   one WriteRTP / Write call: deep         *)
 (*          snapshots of the caller's packet before / after, and what the    *)
-(*          senders' writers were handed during the call, in order.          *)
+(*          senders' writers were handed during the call, in order; conc =   *)
+(*          a Bind / Unbind call made while the write was held at its first  *)
+(*          sender (op "none" when there was none).                          *)
 (* The set of currently bound senders is reconstructed here from the         *)
 (* results of the Bind / Unbind calls (not taken from the driver).           *)
 EXTENDS StaticRTPOps, TraceKit
@@ -15,14 +17,30 @@ VARIABLES l, viol, cnt,
           gone,   \* ids that were bound and have been unbound
           ctx     \* id -> [ssrc, pt] negotiated for the sender (from the bind line)
 
+\* A write line may carry a concurrent call (conc.op = "Bind" / "Unbind"): the driver held the write
+\* at its first sender, started that call on another goroutine and then let the write go on.  The two
+\* calls overlap, so the deliveries must be right for the senders bound before the concurrent call
+\* (S0) or for those bound after it (S1).  When neither fits, the individual predicates are reported
+\* against S0 (the set the write began with).
+After(S, c) == IF c.res # "ok" THEN S
+               ELSE IF c.op = "Bind" THEN S \cup {c.id}
+               ELSE IF c.op = "Unbind" THEN S \ {c.id} ELSE S
+CtxWith(c) == IF c.op = "Bind" THEN [x \in (DOMAIN ctx) \cup {c.id} |-> IF x = c.id THEN [ssrc |-> c.ssrc, pt |-> c.pt] ELSE ctx[x]]
+              ELSE ctx
 Preds(e) ==
   IF e.ev # "write" THEN {}
-  ELSE {
-   P("C29", "EachBoundOnce",   bset # {},      EachBoundOnce(bset, e.recv)),
+  ELSE
+  LET over == e.conc.op # "none"
+      s1   == After(bset, e.conc)
+      lin  == over /\ (LinearizedOn(bset, e.recv) \/ LinearizedOn(s1, e.recv))   \* some order of the two calls explains it
+      cx   == CtxWith(e.conc)
+  IN {
+   P("C29", "EachBoundOnce",   bset # {},      lin \/ EachBoundOnce(bset, e.recv)),
    \* deliveries only to bound senders; counted as exercised when some sender has been removed
-   P("C29", "NoneAfterUnbind", gone # {},      OnlyBound(bset, e.recv)),
-   P("C29", "OnlyBound",       TRUE,           OnlyBound(bset, e.recv)),
-   P("C29", "RewrittenHeader", Len(e.recv) > 0, RewrittenHeader(ctx, e.recv)),
+   P("C29", "NoneAfterUnbind", gone # {},      lin \/ OnlyBound(bset, e.recv)),
+   P("C29", "OnlyBound",       TRUE,           lin \/ OnlyBound(bset, e.recv)),
+   P("C29", "OverlapLinearizable", over,       lin),
+   P("C29", "RewrittenHeader", Len(e.recv) > 0, RewrittenHeader(cx, e.recv)),
    P("C29", "RestUnchanged",   Len(e.recv) > 0, RestUnchanged(e.in.rest, e.recv)),
    P("C29", "CallerUntouched", TRUE,           CallerUntouched(e.in, e.after))
   }
@@ -48,11 +66,17 @@ Step ==
                       /\ gone' = IF e.id \in bset THEN gone \cup {e.id} ELSE gone
                  ELSE UNCHANGED <<bset, gone>>
               /\ UNCHANGED <<ctx, viol, cnt>>
-         [] OTHER ->
+         [] e.ev = "write" ->
               LET ps == Preds(e) IN
               /\ viol' = viol \cup Failures(ps, e, l)
               /\ cnt'  = Count(cnt, ps)
-              /\ UNCHANGED <<bset, gone, ctx>>
+              \* the concurrent call has taken effect by the end of the line
+              /\ bset' = After(bset, e.conc)
+              /\ gone' = IF e.conc.res # "ok" THEN gone
+                         ELSE IF e.conc.op = "Unbind" /\ e.conc.id \in bset THEN gone \cup {e.conc.id}
+                         ELSE IF e.conc.op = "Bind" THEN gone \ {e.conc.id} ELSE gone
+              /\ ctx' = IF e.conc.res = "ok" THEN CtxWith(e.conc) ELSE ctx
+         [] OTHER -> UNCHANGED <<viol, cnt, bset, gone, ctx>>
   /\ l' = l + 1
 
 Done == l = Len(Trace) + 1 /\ UNCHANGED <<l, viol, cnt, bset, gone, ctx>>
